@@ -288,8 +288,14 @@ func workerMain(args []string) int {
 			// a sequence of foreign operations: pop-pop-push against a suspended pop, a
 			// refill against a suspended check, ...)
 			nb := len(tr.Points)
-			tr.Points = append(tr.Points, burstYields(pr, ex.racePointOcc, pr.Range(0, 8))...)
+			tr.Points = append(tr.Points, burstYields(pr, ex.racePointOcc, pr.Range(0, 8), nil)...)
 			wo.Probes["burst_yields_planned"] += len(tr.Points) - nb
+			// shared state: yields and bursts at statements that touch what trees share
+			// (package-level variables, atomics, locks) — where a check-then-act window
+			// on shared state opens and closes
+			nb = len(tr.Points)
+			tr.Points = append(tr.Points, burstYields(pr, ex.racePointOcc, pr.Range(4, 12), sharedPoints)...)
+			wo.Probes["shared_state_yields_planned"] += len(tr.Points) - nb
 			if jf != nil {
 				pj, _ := json.Marshal(tr.Points)
 				fmt.Fprintf(jf, "POINTS %d %s\n", i, pj)
@@ -525,14 +531,24 @@ func pairedYields(r *RNG, occ [][]pointOcc, want int) []PointAct {
 
 // burstYields plans up to want yields that hand the baton to one foreign
 // goroutine for a run of 2..16 of its steps.
-func burstYields(r *RNG, occ [][]pointOcc, want int) []PointAct {
+func burstYields(r *RNG, occ [][]pointOcc, want int, only []int) []PointAct {
 	var out []PointAct
 	for try := 0; try < want*4 && len(out) < want && len(occ) > 0; try++ {
 		g := r.Intn(len(occ))
 		var distinct []int
-		for id := range occ[g] {
-			if occ[g][id].n > 0 {
-				distinct = append(distinct, id)
+		if only != nil {
+			// restricted to the listed statements; a single step of the other goroutine
+			// half of the time, a burst otherwise
+			for _, id := range only {
+				if id < len(occ[g]) && occ[g][id].n > 0 {
+					distinct = append(distinct, id)
+				}
+			}
+		} else {
+			for id := range occ[g] {
+				if occ[g][id].n > 0 {
+					distinct = append(distinct, id)
+				}
 			}
 		}
 		if len(distinct) == 0 {
@@ -542,6 +558,9 @@ func burstYields(r *RNG, occ [][]pointOcc, want int) []PointAct {
 		a := o.at[r.Intn(len(o.at))]
 		// the foreign goroutine: the owner of a step soon after a.step
 		h, left := int32(0), pick(r, []int{2, 2, 3, 4, 6, 8, 12, 16})
+		if only != nil && r.Chance(1, 2) {
+			left = 1
+		}
 		to := 0
 		for k := a.step + 1; k < len(raceOwnerOf); k++ {
 			w := raceOwnerOf[k]
